@@ -483,17 +483,27 @@ func abortClose(c *rawclient.Conn) {
 
 // infraMarks are texts of errors that come from the fixture's infrastructure (pool, sockets,
 // deadlines on a loaded machine), not from the behaviour under test: such a case is skipped.
-var infraMarks = []string{"getbackendconn failed", "create resource failed", "context deadline exceeded", "i/o timeout",
-	"connection refused", "connection reset", "broken pipe", "bad connection", "timed out", "timeout", "unexpected eof", "use of closed network connection"}
+var infraMarks = []string{"create resource failed", "context deadline exceeded", "i/o timeout",
+	"connection refused", "connection reset", "broken pipe", "bad connection", "connection was bad", "resource pool timed out",
+	"resource pool is closed", "connection pool is closed", "execution timed out", "unexpected eof", "use of closed network connection"}
 
-func infraErr(msg string) bool {
+// a MySQL error of the backend forwarded by the proxy ("ERROR 1231 (42000): ...")
+var reBackendSQLErr = regexp.MustCompile(`(?i)error \d+ \([0-9a-z]{5}\)`)
+
+// infraErr returns the mark that makes an error message an infrastructure error ("" if none).
+// "getBackendConn failed" alone is one only when it does not wrap a statement the backend refused
+// (in a transaction the proxy reports a refused SET that way, which is behaviour under test).
+func infraErr(msg string) string {
 	m := strings.ToLower(msg)
 	for _, k := range infraMarks {
 		if strings.Contains(m, k) {
-			return true
+			return k
 		}
 	}
-	return false
+	if strings.Contains(m, "getbackendconn failed") && !reBackendSQLErr.MatchString(m) {
+		return "getbackendconn failed"
+	}
+	return ""
 }
 
 func checkCase(c histCase) (o pbt.Outcome) {
@@ -637,8 +647,8 @@ func checkCase(c histCase) (o pbt.Outcome) {
 				return
 			}
 			taintFrom(ci)
-			if r.Err != nil && infraErr(r.Err.Message) {
-				o.Skip = "infrastructure error reported by the proxy"
+			if r.Err != nil && infraErr(r.Err.Message) != "" {
+				o.Skip = "infrastructure error reported by the proxy: " + infraErr(r.Err.Message)
 				return
 			}
 			if r.Err != nil {
@@ -679,8 +689,8 @@ func checkCase(c histCase) (o pbt.Outcome) {
 				return
 			}
 			taintFrom(ci)
-			if r.Err != nil && infraErr(r.Err.Message) {
-				o.Skip = "infrastructure error reported by the proxy"
+			if r.Err != nil && infraErr(r.Err.Message) != "" {
+				o.Skip = "infrastructure error reported by the proxy: " + infraErr(r.Err.Message)
 				return
 			}
 			if r.Err != nil {
@@ -711,8 +721,8 @@ func checkCase(c histCase) (o pbt.Outcome) {
 				return
 			}
 			taintFrom(ci)
-			if r.Err != nil && infraErr(r.Err.Message) {
-				o.Skip = "infrastructure error reported by the proxy"
+			if r.Err != nil && infraErr(r.Err.Message) != "" {
+				o.Skip = "infrastructure error reported by the proxy: " + infraErr(r.Err.Message)
 				return
 			}
 			if r.Err == nil {
@@ -769,8 +779,8 @@ func checkCase(c histCase) (o pbt.Outcome) {
 			if inTx[ci] {
 				holds[ci] = true
 			}
-			if r.Err != nil && infraErr(r.Err.Message) {
-				o.Skip = "infrastructure error reported by the proxy"
+			if r.Err != nil && infraErr(r.Err.Message) != "" {
+				o.Skip = "infrastructure error reported by the proxy: " + infraErr(r.Err.Message)
 				return
 			}
 			if taintFrom(ci) {
